@@ -59,7 +59,8 @@ def join_abi_rule(run, fh, ff, rid):
             why.append("does not join its own handle argument")
         if fn == "task_timeout_join" and jn:
             d = describe_val(b, du, jn[0][1]["args"][1])
-            if not (d[0] == "call" and d[1] == "std::time::Duration::from_nanos" and "ns_time" in repr(d)):
+            # from_nanos(<the ns_time parameter, unchanged>): `ns_time * 2` mentions the name too
+            if not (d[0] == "call" and d[1] == "std::time::Duration::from_nanos" and len(d[2]) == 1 and d[2][0][0] == "param" and d[2][0][2] == "ns_time"):
                 ok = False
                 why.append("the timeout is not Duration::from_nanos(ns_time)")
         if ok and len(rows) >= 4:
